@@ -156,6 +156,28 @@ def run(ctx):
         ctx.violation({"tlc_counterexample": mc.counterexample()[-1:]}, "TLC refuted invariant %s of P_C01" % inv)
     cases = core.replay_cases(ctx) or make_cases(ctx, None)
     results = core.run_cases(ctx, "harness.lib", "call_parse", cases)
+    if not ctx.replay:
+        # TIMEZONE='local' (the default): the process-local zone comes from the TZ environment of the workers
+        import pytz
+        rng = ctx.rng
+        for tzenv in ["Asia/Kolkata", "America/New_York", "Pacific/Kiritimati"] + ([] if ctx.quick() else ["Europe/Berlin", "Australia/Lord_Howe", "UTC"]):
+            lc = []
+            for _ in range(60 if ctx.quick() else 600):
+                # pytz (the oracle) knows no DST rules after 2037 while the process-local zone (zoneinfo) extrapolates
+                # them: zones with DST are only probed up to 2^31 - 1 seconds
+                dst_free = tzenv in ("Asia/Kolkata", "Pacific/Kiritimati", "UTC")
+                n = rng.choice([10 ** 9, 10 ** 10 - 1, 2 ** 31, rng.randint(10 ** 9, 10 ** 10 - 1)]) if dst_free else \
+                    rng.choice([10 ** 9, 2 ** 31 - 1, rng.randint(10 ** 9, 2 ** 31 - 1)])
+                sfx = rng.choice([0, 3, 6])
+                frac = 0 if sfx == 0 else (rng.randint(0, 999) * 1000 if sfx == 3 else rng.randint(0, 999999))
+                inst = pytz.utc.localize(datetime.datetime(1970, 1, 1) + datetime.timedelta(seconds=n))
+                off = int(inst.astimezone(pytz.timezone(tzenv)).utcoffset().total_seconds())
+                s_ = str(n) + ("" if sfx == 0 else ("%03d" % (frac // 1000) if sfx == 3 else "%06d" % frac))
+                days, sod = divmod(n, 86400)
+                lc.append({"kind": "epoch", "days": days, "sod": sod, "frac": frac, "zoff": off, "s": s_, "kw": {"languages": ["en"]},
+                           "settings": rng.choice([None, {"TIMEZONE": "local"}]), "api": "ddp", "probe": False, "tzenv": tzenv})
+            cases += lc
+            results += core.run_cases(ctx, "harness.lib", "call_parse", lc, nproc=4, env={"TZ": tzenv})
     records, nabs = [], 0
     for i, (c, r) in enumerate(zip(cases, results)):
         rec = {"kind": c["kind"], "tid": i, "out": r["out"], "period": r["period"], "exc": r["exc"],
@@ -176,7 +198,7 @@ def run(ctx):
         "states": mc.distinct, "transitions": mc.generated,
         "traces_validated_against_impl": len(cases) - sp, "abs_events_validated": nabs - sa,
         "evaluations": len(cases),
-        "distinct_nontrivial": len({(c["s"], repr(sorted(c["settings"].items())), repr(c["kw"])) for c, r in zip(cases, results) if r["out"]}),
+        "distinct_nontrivial": len({(c["s"], repr(sorted((c["settings"] or {}).items())), repr(c["kw"])) for c, r in zip(cases, results) if r["out"]}),
         "rule": "case = (rendering family, datetime, fraction length, language selected/autodetected, PREFER_* settings) or (epoch number, suffix, sign, TIMEZONE); non-trivial = distinct call returning a datetime",
         "exhaustive": False,
         "by_kind": {k: sum(1 for c in cases if c["kind"] == k) for k in ("c01", "epoch")},
@@ -185,4 +207,4 @@ def run(ctx):
     }
     return core.finish(ctx, LEVEL, cov, assumptions=[
         "negative epoch numbers: -n seconds plus the suffix as a positive fraction (the reading the repository's tests pin)",
-        "zone offsets of IANA zones at the instant are taken from pytz (trusted); TIMEZONE='local' is not varied here"])
+        "zone offsets of IANA zones at the instant are taken from pytz (trusted); TIMEZONE='local' is exercised by running workers under several TZ environments"])
